@@ -80,6 +80,20 @@ def check_clock(start, end, pre, post, acc, reuse=False):
         if after != want:
             raise Violation('C12', 're-iteration/after-abandoned-pass', 'after an abandoned partial pass a full pass over the same '
                             'engine yields %d events, expected %d for %s' % (len(after), len(want), case), case)
+        # events kept by the consumer (list(engine)) must still say what they said when they were emitted
+        kept = list(DailyBusinessDaySimulationEngine(pts(start), pts(end), pre_market=pre, post_market=post))
+        kept_view = [(to_py(e.ts), e.event_type) for e in kept]
+        if kept_view != want:
+            raise Violation('C12', 'kept-events-changed', 'list(engine) holds %d events whose timestamps read %s ...; emitted were %s ...'
+                            ' for %s' % (len(kept), [str(x[0]) for x in kept_view[:3]], [str(x[0]) for x in want[:3]], case), case)
+        # two iterators over one engine at the same time (look-ahead pairing)
+        import itertools
+        eng3 = DailyBusinessDaySimulationEngine(pts(start), pts(end), pre_market=pre, post_market=post)
+        pairs = [((to_py(a.ts), a.event_type), (to_py(b.ts), b.event_type))
+                 for a, b in zip(eng3, itertools.islice(eng3, 1, None))]
+        if pairs != list(zip(want, want[1:])):
+            raise Violation('C12', 're-iteration/simultaneous-iterators', 'zip(engine, islice(engine, 1, None)) gives %d pairs, '
+                            'expected %d consecutive pairs for %s' % (len(pairs), max(0, len(want) - 1), case), case)
         acc.count('C12:reiteration_checks')
     return got
 
@@ -164,7 +178,8 @@ def shard_c12(spec, acc):
 def random_range(rng, max_days=1100):
     d = dt.date(1990, 1, 1) + dt.timedelta(days=rng.randint(0, 25500))
     n = rng.choice([0, 1, 2, 5, 9, 30, 90, 365, rng.randint(0, max_days)])
-    t1 = dt.time(rng.randint(0, 23), rng.choice([0, 15, 30, 59]), rng.choice([0, 0, 59]))
+    t1 = dt.time(rng.randint(0, 23), rng.choice([0, 15, 30, 59]), rng.choice([0, 0, 59, 15]),
+                 rng.choice([0, 0, 0, 250000, 1, 999999]))
     if rng.random() < 0.5:
         t1 = rng.choice([dt.time(0, 0), dt.time(14, 30), dt.time(9, 0), dt.time(21, 0)])
     # end time-of-day not before the start's (the quantifier)
